@@ -93,6 +93,21 @@ theorem rel_step {cap : Nat} {s s' : Sys} {sp : Spec} {op : Op} {o : Obs}
     · simp only [Option.some.injEq, Prod.mk.injEq] at hs; obtain ⟨hs, _⟩ := hs; subst hs
       exact ⟨h1, h2, h3, h4⟩
     · simp at hs
+  | dropHandle hd =>
+    simp only [step] at hs; split at hs
+    · simp only [Option.some.injEq, Prod.mk.injEq] at hs; obtain ⟨hs, _⟩ := hs; subst hs
+      exact ⟨h1, h2, h3, h4⟩
+    · simp at hs
+  | debug hd =>
+    simp only [step] at hs; split at hs
+    · simp only [Option.some.injEq, Prod.mk.injEq] at hs; obtain ⟨hs, _⟩ := hs; subst hs
+      exact ⟨h1, h2, h3, h4⟩
+    · simp at hs
+  | debugGuard g =>
+    simp only [step] at hs; split at hs
+    · simp only [Option.some.injEq, Prod.mk.injEq] at hs; obtain ⟨hs, _⟩ := hs; subst hs
+      exact ⟨h1, h2, h3, h4⟩
+    · simp at hs
 
 theorem rel_run {cap : Nat} (ops : List Op) : ∀ {s s' : Sys} {sp : Spec} {os : List Obs},
     Rel cap s sp → run s ops = some (s', os) → Rel cap s' (ops.foldl (Spec.step cap) sp) := by
